@@ -40,6 +40,12 @@ def run_product(case):
     b.files["summary.txt"] = ("\r\n" if case["seed"] % 8 >= 4 else "\n").join(lines).encode() + b"\n"
     url = imgrun.put_on_fs(b, case["fs"], f"c13_{case['seed']}")
     out = {"case": case, "bad": []}
+    import logging
+
+    lv = (logging.getLogger("ceos_alos2").level, logging.getLogger().level)
+    if case["seed"] % 3 == 1:  # an application that runs with debug logging switched on
+        logging.getLogger("ceos_alos2").setLevel(logging.DEBUG)
+        logging.getLogger().setLevel(logging.DEBUG)
     try:
         for attempt in (1, 2):  # the same product opened twice in one process: nothing may stick between calls
             tracefs.take_log()
@@ -92,6 +98,8 @@ def run_product(case):
             elif paths != first_paths:
                 out["bad"].append(("second-open-differs", f"node set differs between two opens: {sorted(set(paths) ^ set(first_paths))[:4]}"))
     finally:
+        logging.getLogger("ceos_alos2").setLevel(lv[0])
+        logging.getLogger().setLevel(lv[1])
         imgrun.drop_from_fs(url, case["fs"])
     return out
 
